@@ -90,7 +90,7 @@ func genObject(t *rapid.T, seed uint64, idx int, c config) (*fsobj.Obj, string) 
 	}
 	s.Compress = rapid.IntRange(0, 4).Draw(t, "compress") == 0
 	s.Repetitive = rapid.IntRange(0, 9).Draw(t, "repetitive") < 4
-	class := rapid.SampledFrom([]string{"nopayload", "tiny", "tiny", "tiny", "thr", "thr", "buf", "buf", "buf", "medium", "medium", "large"}).Draw(t, "sizeClass")
+	class := rapid.SampledFrom([]string{"nopayload", "tiny", "tiny", "tiny", "thr", "thr", "buf", "buf", "exact", "medium", "medium", "large"}).Draw(t, "sizeClass")
 	switch class {
 	case "nopayload":
 		s.Payload = 0
@@ -103,6 +103,10 @@ func genObject(t *rapid.T, seed uint64, idx int, c config) (*fsobj.Obj, string) 
 		total := c.thr + rapid.IntRange(-2, 2).Draw(t, "thrDelta")
 		s.Payload = 1
 		return fit(s, max(total, 1)), class
+	case "exact":
+		// stored length exactly one (rarely two) header buffers: the boundary between "fully buffered" and "streamed"
+		s.Payload = 1
+		return fit(s, rapid.SampledFrom([]int{1, 1, 1, 2}).Draw(t, "exactK")*fsobj.HeaderBufferLen), class
 	case "buf":
 		// member length such that prefix+data ends near a multiple of the 20 KiB header buffer
 		k := rapid.IntRange(1, 3).Draw(t, "bufK")
